@@ -42,7 +42,10 @@ def main():
     for ep, txt in saved.items():
         if txt is not None:
             open(ep, "w").write(txt)
-    json.dump(res, open(os.path.join(ROOT, "harmless", "results.json"), "w"), indent=1)
+    rp = os.path.join(ROOT, "harmless", "results.json")
+    old = json.load(open(rp)) if os.path.exists(rp) else {}
+    old.update(res)
+    json.dump(old, open(rp, "w"), indent=1)
     print("alarms on harmless changes:", bad)
     return 1 if bad else 0
 
